@@ -305,3 +305,113 @@ def run_rt_correspondence(ctx, cases, name, seed=1):
         for j, c in enumerate(cs):
             codes[idx[base + j]] = c
     return outs, codes
+
+
+# ------------------------------------------------------------------ monitors (search): no model involved
+def monitors(p, o):
+    """Check the property statements directly on what the real library did (NRT run).
+    -> list of (theorem, signature-key, text)"""
+    bad = []
+    ev = o['events']
+    F = Fraction
+    res = {}            # rid -> list of (k, clock, secs, beats)
+    plays = {}          # child -> (clock, secs)
+    defs = {}
+    nplay = 0
+    order = []
+    for e in ev:
+        if e[0] == 'resume':
+            res.setdefault(e[1], []).append((e[2], e[3], F(e[4]), F(e[5])))
+            order.append(F(e[4]))
+        elif e[0] == 'play':
+            plays[e[2]] = (e[3], F(e[4]), e[1])
+    # which body does routine rid run?  replay the play order on the script
+    # (children are numbered in the order play() was called; the script tells which body)
+    body_of = {}
+    pending = []
+    for e in ev:
+        if e[0] == 'play':
+            body_of[e[2]] = None
+    # derive body index: walk events and scripts together
+    progress = {}       # rid -> index into its body
+    def next_play_target(acts, start):
+        for j in range(start, len(acts)):
+            if acts[j][0] in ('P', 'F'):
+                return j
+        return None
+    main_idx = 0
+    for e in ev:
+        if e[0] != 'play':
+            continue
+        org = e[1]
+        if org is None:
+            j = next_play_target(p['main'], main_idx)
+            if j is None:
+                break
+            body_of[e[2]] = p['main'][j][1]
+            main_idx = j + 1
+        else:
+            rid = org[0]
+            b = body_of.get(rid)
+            if b is None:
+                continue
+            j = next_play_target(p['bodies'][b], progress.get(rid, 0))
+            if j is None:
+                continue
+            body_of[e[2]] = p['bodies'][b][j][1]
+            progress[rid] = j + 1
+    negative = any(a[0] == 'Y' and F(a[1]) < 0 for b in p['bodies'] for a in b)
+    for rid, lst in res.items():
+        b = body_of.get(rid)
+        if b is None:
+            continue
+        ys = []
+        for a in p['bodies'][b]:
+            if a[0] == 'R':
+                break
+            if a[0] == 'Y':
+                ys.append(F(a[1]))
+        b0 = lst[0][3]
+        for (k, c, secs, beats) in lst:
+            exp = b0 + sum(ys[:k], F(0))
+            if beats != exp:
+                bad.append(('kth_resume_time', 'F11', 'routine %d resumption %d on clock %s: beats %s, expected start %s + yields %s = %s'
+                            % (rid, k, c, beats, b0, [str(y) for y in ys[:k]], exp)))
+                break
+        if rid in plays:
+            c, T, org = plays[rid]
+            if lst[0][2] != T:
+                bad.append(('child_starts_at_parent_time', 'F20', 'routine %d was played on clock %s at logical time %s but starts at %s'
+                            % (rid, c, T, lst[0][2])))
+    if not negative:
+        for a, b in zip(order, order[1:]):
+            if b < a:
+                bad.append(('nrt_time_monotone', 'F20', 'logical time runs backwards between executed tasks: %s then %s' % (a, b)))
+                break
+    if order and F(o['elapsed']) != order[-1]:
+        bad.append(('nrt_elapsed_ends_at_last_instant', None, 'elapsed_time() = %s, last executed task at %s' % (o['elapsed'], order[-1])))
+    return bad
+
+
+def score_monitors(p, o):
+    bad = []
+    F = Fraction
+    sc = o['score']
+    times = [F(s[2]) for s in sc]
+    if any(b < a for a, b in zip(times, times[1:])):
+        bad.append(('score_sorted_stable', None, 'score not ordered by time: %s' % [str(t) for t in times]))
+    if not sc or sc[-1][4] != [['m', -1]]:
+        bad.append(('score_ends_with_tail_marker', 'F17',
+                    'the score does not close with the tail marker: marker at %s, last bundle at %s'
+                    % ([s[2] for s in sc if s[4] == [['m', -1]]], sc[-1][2] if sc else None)))
+    for e in o['events']:
+        if e[0] == 'send' and e[5] is not None:
+            T, lat = F(e[2]), e[3]
+            lv = F(0) if lat is None or F(lat) < 0 else F(lat)
+            exp = lv + (T if e[1] is not None else 0)
+            if F(e[5][2]) != exp or e[5][3] != int(exp * (1 << 32)):
+                bad.append(('stamp_is_logical_plus_latency', None, 'bundle sent at logical %s with latency %s is stamped %s / %s'
+                            % (T, lat, e[5][2], e[5][3])))
+            if not any(s == e[5] for s in sc):
+                bad.append(('score_times_exact', None, 'bundle %s is not in the score' % (e[5],)))
+    return bad
